@@ -163,7 +163,7 @@ Definition brel_CCVS (c : sctx K) (v ib : Z -> K) q := fadd
    (fmul (ind (bown c) q) (fsub (dV01 c v) (fmul (par c pArg1) (ib (bctrl c)))))
    (if ctrl_is_vsrc c then f0 else fmul (ind (bctrl c) q) (fsub (vv v (c0 c)) (vv v (c1 c)))).
 (* K: adds -(ZM c) i_L2 to L1's relation and -(ZM c) i_L1 to L2's; nothing at dc *)
-Definition ZM (c : sctx K) : K := if akind_eqb (kind c) KS || akind_eqb (kind c) KIvp || akind_eqb (kind c) KLaplace
+Definition ZM (c : sctx K) : K := if akind_eqb (kind c) KS || akind_eqb (kind c) KIvp || akind_eqb (kind c) KLaplace || akind_eqb (kind c) KTransient
                      then par c pZM0 else par c pZM1.
 Definition drawn_K (c : sctx K) (v ib : Z -> K) (r : Z) : K := f0.
 (* in an initial-value analysis V1 = L1 (s I1 - i01) + M (s I2 - i02): the partner's initial current enters too *)
